@@ -26,8 +26,11 @@ RULE = ("seeded generator. receiver: every predefined DataVolume unit (quantum 1
         "list (TypeError), zero total (ZeroDivisionError), zero/negative ratios, "
         "number/quantity mixtures (TypeError), ratios of different types "
         "(IncompatibleUnitsError), temperature ratios in mixed units (affine "
-        "converter: fractions do not add up to 1) - the model predicts the observed "
-        "exception class or result for all of these. SKIPPED for the model (no Coq "
+        "converter: fractions do not add up to 1; known finding C06-affine-ratio-type, "
+        "two seed-independent witnesses in corpus/C06, the oracle checks this family "
+        "against shares computed with the independent temperature table and classify() "
+        "maps only its share/remainder failures to the finding) - the model predicts the "
+        "observed exception class or result for all of these. SKIPPED for the model (no Coq "
         "case, reason: Model/Alloc.v has exact rational ratios only; the signature "
         "says Collection[Union[Rational, Quantity]]): float, str and None ratios; "
         "they are run, labelled 'coq-skip', and only non-mutation is checked. "
@@ -167,7 +170,7 @@ def gen_cases(rng, tier):
                                        [['n', ['int', '1/1']] for _ in range(n)],
                                        ['pos', disp], 'sweep'))
     # (2) seeded structured cases
-    N = 5000 if thorough else 450
+    N = 4000 if thorough else 450
     for _ in range(N):
         world, sym = _receiver_world(rng)
         views = W.Views(world)
@@ -189,7 +192,7 @@ def gen_cases(rng, tier):
                             F(1, 10 ** 9), F(2, 3)])
         cases.append(_case(world, dm, _spec(a, rng), sym, ratios, _flag(rng), 'valid'))
     # (3) malformed stream
-    M = 700 if thorough else 120
+    M = 600 if thorough else 120
     for _ in range(M):
         world, sym = _receiver_world(rng)
         if not world.get('predefined'):
@@ -249,6 +252,15 @@ def gen_cases(rng, tier):
 
 
 # ------------------------------------------------------------ implementation
+
+def impl_setup():
+    """Runs once in every worker before the per-case children are forked: the
+    predefined catalogue and the money module are imported here, so every
+    child starts from the same registry state (catalogue declared, nothing
+    else) without paying the import again."""
+    import quantity.predefined      # noqa: F401
+    import quantity.money           # noqa: F401
+
 
 def _ratio_value(spec, units):
     if spec[0] == 'n':
@@ -327,10 +339,33 @@ def coq_model_term(case, r):
 
 # ------------------------------------------------------------ oracle
 
+KNOWN_AFFINE = 'C06-affine-ratio-type'
+
+
+def _affine_family(case, views):
+    """Ratios are quantities of ONE type that has no linear scales and whose
+    units are related by a table converter with a non-zero offset
+    (temperature), given in MIXED units."""
+    specs = case['ratios']
+    if not specs or any(s[0] != 'q' for s in specs):
+        return False
+    us = [views.units[s[2]] for s in specs]
+    if len({u['cls'] for u in us}) != 1 or any(u['scale'] is not None for u in us):
+        return False
+    syms = sorted({s[2] for s in specs})
+    if len(syms) < 2:
+        return False
+    return all((a, b) in siref.TEMP_TABLE and siref.TEMP_TABLE[(a, b)][1] != 0
+               for a in syms for b in syms if a != b)
+
+
 def _shares(case, r, views):
     """Exact proportional fractions of an in-domain ratio list, else None:
-    non-empty; all exact numbers > 0, or all quantities > 0 of one type whose
-    units are linear (or all in the very same unit)."""
+    non-empty; all exact numbers > 0, or all quantities > 0 of one type.
+    Values of quantities: amount * scale for linear units; the amount when all
+    ratios carry the very same unit; for the affine family (temperature in
+    mixed units) the amount converted into the FIRST ratio's unit with the
+    independent reference table (the unit in which the total is formed)."""
     specs = case['ratios']
     if not specs or not _modelable(case):
         return None
@@ -345,14 +380,47 @@ def _shares(case, r, views):
             vals = [F(ob['amt']) * u['scale'] for ob, u in zip(r['ratios'], us)]
         elif len({s[2] for s in specs}) == 1:
             vals = [F(ob['amt']) for ob in r['ratios']]
+        elif _affine_family(case, views):
+            if any(F(ob['amt']) <= 0 for ob in r['ratios']):
+                return None
+            first = specs[0][2]
+            vals = []
+            for s, ob in zip(specs, r['ratios']):
+                f, o = (F(1), F(0)) if s[2] == first else siref.TEMP_TABLE[(s[2], first)]
+                vals.append(f * F(ob['amt']) + o)
+            tot = sum(vals)
+            return None if tot == 0 else [v / tot for v in vals]
         else:
-            return None         # affine converters (temperature): see design_C06.md
+            return None
     else:
         return None
     if any(v <= 0 for v in vals):
         return None
     tot = sum(vals)
     return [v / tot for v in vals]
+
+
+def classify(case, res, msg):
+    """Key of a known finding, else None.  C06-affine-ratio-type: for the
+    affine family the code divides every ratio by the total converted into
+    that ratio's own unit, so the fractions do not add up to 1: an unquantized
+    receiver fails the code's assertion, a quantized one gets portions away
+    from their shares and a remainder of many quanta.  Only these
+    share/remainder failures are the known finding; a broken conservation,
+    unit, grid or a mutated receiver in this family stays a VIOLATION."""
+    if res is None or not isinstance(case, dict) or 'ratios' not in case:
+        return None
+    if not _affine_family(case, W.Views(case['world'])):
+        return None
+    out = res['res']
+    if msg.startswith('valid ratios rejected'):
+        return KNOWN_AFFINE if out['k'] == 'err' and out['e'] == 'EAssertion' else None
+    if (msg.startswith('unquantized portion') or msg.startswith('unquantized remainder')
+            or ' away from its share ' in msg
+            or 'although the rounding error was dispersed' in msg
+            or ' not smaller than ' in msg or ' half quanta under ' in msg):
+        return KNOWN_AFFINE
+    return None
 
 
 def oracle(case, r):
